@@ -1,6 +1,6 @@
 (* Extraction of the hand-written executable model (ExtrOcamlBasic only). *)
 From Coq Require Import ZArith List Extraction ExtrOcamlBasic.
-From C14 Require PropagationModel Model.
+From C14 Require PropagationModel Model Bodies.
 Separate Extraction
   PropagationModel.mkTraits PropagationModel.proxy_assign PropagationModel.native_proxy_assign
   PropagationModel.code_target_alloc PropagationModel.code_elementwise PropagationModel.std_target_alloc
@@ -11,4 +11,6 @@ Separate Extraction
   Model.arr_new Model.arr_destroy Model.arr_move_ctor Model.arr_move_assign Model.arr_swap Model.arr_copy_ctor_mm
   Model.arr_copy_ctor Model.arr_copy_assign Model.arr_clear Model.arr_insert
   Model.w_create Model.w_move_assign Model.w_copy_assign Model.w_swap
-  Model.v_create Model.v_move_assign Model.v_copy_assign Model.v_swap.
+  Model.v_create Model.v_move_assign Model.v_copy_assign Model.v_swap
+  Model.cc_find Model.w_assign_ilist
+  Bodies.s_copy Bodies.s_move_ctor Bodies.s_swap Bodies.abs Bodies.sb_items.
